@@ -224,6 +224,18 @@ func (w *World) guard(op string, f func() error) (err error) {
 // CrashSentinel is the panic value used to kill a wallet at a boundary call (C19).
 type CrashSentinel struct{}
 
+// feeOfKeyset: input_fee_ppk of a keyset at whichever mint of the world has it.
+func (w *World) feeOfKeyset(id string) uint {
+	for _, m := range w.Mints {
+		for _, k := range m.M.ListKeysets().Keysets {
+			if k.Id == id {
+				return k.InputFeePpk
+			}
+		}
+	}
+	return 0
+}
+
 func mintNameOfURL(u string) string { return strings.TrimPrefix(u, "http://mint-") }
 
 func (w *World) findInvoice(request string) *lnmodel.Invoice {
@@ -469,8 +481,30 @@ func (w *World) Exec(op string) error {
 			w.note(op, err)
 		}
 	case "reclaim":
-		err := w.guard(op, func() error { _, e := ww.W.ReclaimUnspentProofs(); return e })
+		before := ww.W.GetBalance()
+		var got uint64
+		err := w.guard(op, func() error { var e error; got, e = ww.W.ReclaimUnspentProofs(); return e })
 		w.note(op, err)
+		if err == nil {
+			if after := ww.W.GetBalance(); after-before != got {
+				w.viol("C17", "reclaim-amount-differs-from-balance-change", "%s returned %d, balance rose by %d", op, got, after-before)
+			}
+			// reconciled: what is still pending and not locked in a melt is no longer unspent at the mint (a proof whose
+			// whole value the input fee would eat cannot be reclaimed and may stay)
+			var left uint64
+			var n uint
+			var ppk uint
+			for _, p := range ww.DB.Inner.GetPendingProofs() {
+				if p.MeltQuoteId == "" && w.mintStateOfSecret(p.Secret, p.Id) == "UNSPENT" {
+					left += p.Amount
+					n++
+					ppk += w.feeOfKeyset(p.Id)
+				}
+			}
+			if n > 0 && left > uint64((ppk+999)/1000) {
+				w.viol("C17", "reclaim-left-unspent-proofs-pending", "%s succeeded (returned %d) but %d pending proof(s) worth %d that nobody redeemed are still pending", op, got, n, left)
+			}
+		}
 	case "rmspent":
 		err := w.guard(op, func() error { return ww.W.RemoveSpentProofs() })
 		w.note(op, err)
@@ -489,6 +523,9 @@ func (w *World) Exec(op string) error {
 		amount := uint64(atoi(arg(2)))
 		if arg(5) == "F" {
 			w.LN.DefaultPay = lnmodel.Failed
+		}
+		if arg(5) == "P" { // the payment between the two mints stays in flight
+			w.LN.DefaultPay = lnmodel.Pending
 		}
 		err := w.guard(op, func() error { _, e := ww.W.MintSwap(amount, URL(arg(3)), URL(arg(4))); return e })
 		w.LN.DefaultPay = lnmodel.Succeeded
